@@ -183,6 +183,15 @@ def obligations_for(repo, contract, case):
             posts.append(('post-unformed', Havoc('spec raised ' + e.exc), None))
         bg = background_axioms(I)
         hyps = list(I.pc) + bg
+        if run.outcome[0] == 'loopcheck':
+            # vacuity guard: the hypotheses of an invariant step (assumed invariant, ghost definitions, path condition)
+            # must not be contradictory -- a refutable `False` here would discharge every step obligation for free
+            sv = z3.Solver()
+            sv.set('smt.mbqi', False)
+            sv.set('timeout', 4000)
+            sv.add(*hyps)
+            if sv.check() == z3.unsat:
+                raise CheckerError(f'vacuous loop invariant: the step hypotheses of {run.outcome[1]} in {contract.qualname} case {case} are contradictory')
         for sob in I.safety:
             if sob['kind'] in getattr(contract, 'ignore_safety', ()):
                 continue
